@@ -86,6 +86,9 @@ def href_program(draw):
         steps.append(stp)
         if draw(st.integers(0, 9)) == 0:
             steps.append({"op": "RESTART"})
+        if draw(st.integers(0, 7)) == 0:
+            # the same application object answers under another route prefix
+            steps.append({"op": "REMOUNT", "prefix": draw(st.sampled_from(gen_prog.PREFIXES))})
     return {"config": cfg, "steps": steps}
 
 
